@@ -316,5 +316,28 @@ ADDENDA = {
     "C18": "Single upload failures also as FileNotFoundError.",
     "C19": "Public merges run as one session per store (merge must not depend on earlier merges).",
 }
+ADDENDA2 = {
+    "C01": "Migration into the legacy algorithm.",
+    "C02": "Index paths with an explicit FileStorage prefix and with update() after a same-second in-place rewrite.",
+    "C03": "Upload-staging builds.",
+    "C04": "Legacy-algorithm stores; a 1300-file directory (selected failure sets / abort points).",
+    "C05": "Trailing-separator spellings (workspace, State root), read-only cache.",
+    "C06": "sha256 store kind, store-path spellings, 1300 extra unused objects.",
+    "C07": "Existence query of 1301 ids; verifying transfer of a directory member from a corrupt generic source.",
+    "C08": "roots= option; lazily loaded directories seen through views (hash_only).",
+    "C09": "Second cache on another file system, dangling workspace links, build_entries() with a >2 MiB file.",
+    "C10": "Trailing separator, ignore= filter, 1300-file directory.",
+    "C11": "Hard-link adds under verify; index-level fetch from a verifying remote.",
+    "C12": "1030-directory index with a vanished member, stateful local store, get_index() sharing a tmp_dir.",
+    "C13": "sha256 requests / sha256 store on the same state; two files above 1 MiB.",
+    "C14": "Ordered pairs of algorithms through one State.",
+    "C15": "10 scenarios (+ truncated remote directory object under verify, two caches, 1300-object transfer with structural kill points); 12 known link-probe signatures.",
+    "C16": "Trailing-separator workspaces; 1001-file writers without preemption.",
+    "C18": "1300-file directory, persistent cache_index reused by the retry, local-directory remote with a leftover.",
+    "C19": "Stores of sha256 / sha1 / legacy algorithm; merge of 20000-entry listings.",
+    "C20": "JSON rewritten over a longer file; 2500-entry index through the stored forms.",
+}
+for _pid, _t in ADDENDA2.items():
+    ADDENDA[_pid] = ADDENDA.get(_pid, "") + " " + _t
 for _pid, _t in ADDENDA.items():
     CHECKS[_pid]["text"] = CHECKS[_pid]["text"] + " Added later: " + _t
